@@ -12,6 +12,7 @@
 # License for the specific language governing permissions and limitations
 # under the License.
 
+import asyncio
 import collections
 import datetime
 import types
@@ -459,7 +460,17 @@ class Semaphore(_TimeoutGarbageCollector):
         self.__enter__()
 
     async def __aenter__(self) -> None:
-        await self.acquire()
+        waiter = self.acquire()
+        try:
+            await waiter
+        except asyncio.CancelledError:
+            # If release() handed us the permit before the cancellation
+            # was delivered, the body of the "async with" block (and
+            # therefore __aexit__) never runs: give the permit back.
+            # A waiter cancelled while still queued never got one.
+            if waiter.done() and not waiter.cancelled():  # type: ignore
+                self.release()
+            raise
 
     async def __aexit__(
         self,
@@ -571,7 +582,17 @@ class Lock:
         self.__enter__()
 
     async def __aenter__(self) -> None:
-        await self.acquire()
+        waiter = self.acquire()
+        try:
+            await waiter
+        except asyncio.CancelledError:
+            # If release() handed us the permit before the cancellation
+            # was delivered, the body of the "async with" block (and
+            # therefore __aexit__) never runs: give the permit back.
+            # A waiter cancelled while still queued never got one.
+            if waiter.done() and not waiter.cancelled():  # type: ignore
+                self.release()
+            raise
 
     async def __aexit__(
         self,
